@@ -4,7 +4,7 @@
 (* machine: every property is an invariant over the history (documents      *)
 (* added) and the accumulated tree after each stage.                        *)
 (***************************************************************************)
-EXTENDS AyBuild, Props_C02, Props_C03, Props_C04, Props_C05, Props_C08, Props_C15
+EXTENDS AyBuild, Props_C02, Props_C03, Props_C04, Props_C05, Props_C08, Props_C14, Props_C15
 
 HistDocs  == [i \in 1..Len(hist) |-> hist[i].sd]
 HistSafes == [i \in 1..Len(hist) |-> hist[i].safe]
@@ -38,12 +38,18 @@ Inv_C05_Frame   == Check("Inv_C05_Frame", C05_Frame(HistDocs, accs))
 Inv_C08 == Check("Inv_C08", C08_Holds(HistDocs, accs))
 Inv_C08_Names == Check("Inv_C08_Names", C08_ModelNames(HistDocs, accs))
 
+Inv_C14 == Check("Inv_C14", C14_Holds(accs, [status |-> built.status, paths |-> built.paths, calls |-> 0]))
+Inv_C14_Survivors == Check("Inv_C14_Survivors", phase = "constructed" => C14_Survivors(HistDocs, acc))
+C14_Witness == phase = "constructed" /\ Len(hist) >= 2 /\ built.status = "RequiredError" /\ Len(built.paths) >= 2
+
 Inv_C15 == Check("Inv_C15", Terminal => C15_ModelLaws(HistDocs, acc))
 
 \* behaviours for replay: one JSON line per terminal state
 Emit == Terminal => PrintT(ToJson([h |-> [i \in 1..Len(hist) |-> hist[i].i],
                                    s |-> HistSafes,
-                                   x |-> [j \in 1..Len(accs) |-> CompactOut(accs[j])]]))
+                                   x |-> [j \in 1..Len(accs) |-> CompactOut(accs[j])],
+                                   c |-> [status |-> built.status,
+                                          paths |-> [i \in 1..Len(built.paths) |-> [j \in 1..Len(built.paths[i]) |-> KeyStr(built.paths[i][j])]]]]))
 
 
 \* universe sizes, printed once (ASSUME is evaluated at start-up)
